@@ -74,6 +74,29 @@ theorem foldl_min_pos (l : List Nat) (a : Nat) (ha : 0 < a) (hl : ∀ x ∈ l, 0
     have := hl y (by simp)
     exact ih (min a y) (by omega) (fun x hx => hl x (by simp [hx]))
 
+/-! ## the only fact about the capacity: one byte of room beyond `min` -/
+
+/-- explicit spare room: `min < min + max 1 sp`, whatever the constants -/
+theorem hcap_spare (n sp minFactor defaultCap : Nat) :
+    (Buffer.new (α := α) n (some sp) minFactor defaultCap).min <
+      (Buffer.new (α := α) n (some sp) minFactor defaultCap).cap := by
+  show max 1 n < max 1 n + max 1 sp; omega
+
+/-- production shape `max (min * minFactor) defaultCap` with `minFactor ≥ 2` -/
+theorem hcap_factor (n minFactor defaultCap : Nat) (hf : 2 ≤ minFactor) :
+    (Buffer.new (α := α) n none minFactor defaultCap).min <
+      (Buffer.new (α := α) n none minFactor defaultCap).cap := by
+  show max 1 n < max (max 1 n * minFactor) defaultCap
+  have := Nat.mul_le_mul_left (max 1 n) hf
+  omega
+
+/-- the default constants (factor 8, 64 KiB) -/
+theorem hcap_default (n : Nat) (spare : Option Nat) :
+    (Buffer.new (α := α) n spare).min < (Buffer.new (α := α) n spare).cap := by
+  cases spare with
+  | none => show max 1 n < max (max 1 n * 8) (64 * 1024); omega
+  | some sp => show max 1 n < max 1 n + max 1 sp; omega
+
 /-! ## the ideal standard automaton -/
 section Ideal
 variable {α : Type} [DecidableEq α]
@@ -140,13 +163,16 @@ theorem len_le_maxLen (P : List (List α)) (sk : StartKind) {p : List α} (hp : 
   show p.length ≤ (P.map List.length).foldl max 0
   exact (foldl_max_ge _ 0).2 _ (List.mem_map_of_mem hp)
 
-/-- the standing assumptions hold for the ideal standard automaton -/
+/-- the standing assumptions hold for the ideal standard automaton, for any
+buffer constants leaving one byte of room beyond `min` -/
 theorem hyp_ideal (P : List (List α)) (sk : StartKind) (hsk : supportsAnch sk false)
     (hne : ∀ p ∈ P, p ≠ []) (data : List α) (sched : List Nat) (hs : ∀ x ∈ sched, 1 ≤ x)
-    (spare : Option Nat) :
+    (spare : Option Nat) (minFactor defaultCap : Nat)
+    (hcap : (Buffer.new (α := α) (ideal .std P sk false).maxLen spare minFactor defaultCap).min <
+        (Buffer.new (α := α) (ideal .std P sk false).maxLen spare minFactor defaultCap).cap) :
     Hyp (ideal .std P sk false) (.at []) data sched
-      (Buffer.new (α := α) (ideal .std P sk false).maxLen spare).min
-      (Buffer.new (α := α) (ideal .std P sk false).maxLen spare).cap where
+      (Buffer.new (α := α) (ideal .std P sk false).maxLen spare minFactor defaultCap).min
+      (Buffer.new (α := α) (ideal .std P sk false).maxLen spare minFactor defaultCap).cap where
   m0 := start_not_match P sk hne
   fok := by
     intro r m hr hf
@@ -161,16 +187,14 @@ theorem hyp_ideal (P : List (List α)) (sk : StartKind) (hsk : supportsAnch sk f
     show m.stop ≤ m.start + max 1 (ideal .std P sk false).maxLen
     omega
   lm1 := by show 1 ≤ max 1 _; omega
-  lmC := by
-    cases spare with
-    | none => show max 1 _ < max (max 1 _ * 8) (64 * 1024); omega
-    | some sp => show max 1 _ < max 1 _ + max 1 sp; omega
+  lmC := hcap
   sch := hs
 
 theorem new_ok (P : List (List α)) (sk : StartKind) (hsk : supportsAnch sk false)
-    (hne : ∀ p ∈ P, p ≠ []) (rdr : Reader α) (spare : Option Nat) :
-    ChunkIter.new (ideal .std P sk false) rdr spare =
-      .ok { rdr := rdr, buf := Buffer.new (ideal .std P sk false).maxLen spare,
+    (hne : ∀ p ∈ P, p ≠ []) (rdr : Reader α) (spare : Option Nat) (minFactor defaultCap : Nat) :
+    ChunkIter.new (ideal .std P sk false) rdr spare minFactor defaultCap =
+      .ok { rdr := rdr,
+            buf := Buffer.new (ideal .std P sk false).maxLen spare minFactor defaultCap,
             start := .at [], sid := .at [] } := by
   have h1 : ((ideal .std P sk false).kind != .std) = false := rfl
   have h2 : ((ideal .std P sk false).minLen == 0) = false := by
@@ -185,18 +209,18 @@ theorem new_ok (P : List (List α)) (sk : StartKind) (hsk : supportsAnch sk fals
 
 /-- the state `ChunkIter.new` returns -/
 abbrev it0 (P : List (List α)) (sk : StartKind) (data : List α) (sched : List Nat)
-    (fa : Option Nat) (spare : Option Nat) : ChunkIter (St α) α :=
+    (fa : Option Nat) (spare : Option Nat) (minFactor defaultCap : Nat) : ChunkIter (St α) α :=
   { rdr := { data := data, sched := sched, failAt := fa },
-    buf := Buffer.new (ideal .std P sk false).maxLen spare,
+    buf := Buffer.new (ideal .std P sk false).maxLen spare minFactor defaultCap,
     start := .at [], sid := .at [] }
 
 /-- the initial state satisfies the invariant -/
 theorem inv_init (P : List (List α)) (sk : StartKind) (data : List α) (sched : List Nat)
-    (fa : Option Nat) (spare : Option Nat) :
+    (fa : Option Nat) (spare : Option Nat) (minFactor defaultCap : Nat) :
     Inv (ideal .std P sk false) (.at []) data sched fa
-      (Buffer.new (α := α) (ideal .std P sk false).maxLen spare).min
-      (Buffer.new (α := α) (ideal .std P sk false).maxLen spare).cap 0
-      (it0 P sk data sched fa spare) where
+      (Buffer.new (α := α) (ideal .std P sk false).maxLen spare minFactor defaultCap).min
+      (Buffer.new (α := α) (ideal .std P sk false).maxLen spare minFactor defaultCap).cap 0
+      (it0 P sk data sched fa spare minFactor defaultCap) where
   rinv := ⟨rfl, rfl, rfl, rfl, Nat.zero_le _⟩
   binv := ⟨rfl, rfl, Nat.le_refl _, by show ([] : List α) = slice data (0 - 0) 0; simp [slice]⟩
   start := rfl
@@ -211,10 +235,13 @@ theorem inv_init (P : List (List α)) (sk : StartKind) (data : List α) (sched :
 (and no error if the reader has no fault), and the replace loop is `goPure` over it -/
 theorem stream_master (P : List (List α)) (sk : StartKind) (hsk : supportsAnch sk false)
     (hne : ∀ p ∈ P, p ≠ []) (data : List α) (sched : List Nat) (hs : ∀ x ∈ sched, 1 ≤ x)
-    (spare : Option Nat) (fa : Option Nat) :
+    (spare : Option Nat) (minFactor defaultCap : Nat)
+    (hcap : (Buffer.new (α := α) (ideal .std P sk false).maxLen spare minFactor defaultCap).min <
+        (Buffer.new (α := α) (ideal .std P sk false).maxLen spare minFactor defaultCap).cap)
+    (fa : Option Nat) :
     ∃ it cs err,
       ChunkIter.new (ideal .std P sk false) { data := data, sched := sched, failAt := fa } spare
-        = .ok it ∧
+        minFactor defaultCap = .ok it ∧
       ChunkIter.drain (ideal .std P sk false) (drainFuel data) it = (cs, err, 0) ∧
       Spec (firstMatch (ideal .std P sk false) (.at []) data) data err 0 0 cs ∧
       (fa = none → err = false) ∧
@@ -222,23 +249,25 @@ theorem stream_master (P : List (List α)) (sk : StartKind) (hsk : supportsAnch 
         streamReplaceWith.go (ideal .std P sk false) repl (drainFuel data) it w [] =
           ((goPure repl cs err w []).1, (goPure repl cs err w []).2.1,
             (goPure repl cs err w []).2.2, 0) := by
-  have H := hyp_ideal P sk hsk hne data sched hs spare
-  have hI := inv_init P sk data sched fa spare
-  have hn : data.length - off (it0 P sk data sched fa spare) + 1 ≤ drainFuel data := by
+  have H := hyp_ideal P sk hsk hne data sched hs spare minFactor defaultCap hcap
+  have hI := inv_init P sk data sched fa spare minFactor defaultCap
+  have hn : data.length - off (it0 P sk data sched fa spare minFactor defaultCap) + 1 ≤
+      drainFuel data := by
     unfold drainFuel; omega
   obtain ⟨cs, err, hd, hsp, he⟩ := drain_spec H (drainFuel data) _ 0 hI hn
-  refine ⟨_, cs, err, new_ok P sk hsk hne _ spare, hd, hsp, he, ?_⟩
+  refine ⟨_, cs, err, new_ok P sk hsk hne _ spare minFactor defaultCap, hd, hsp, he, ?_⟩
   intro repl w
   rw [go_eq H repl (drainFuel data) _ 0 w [] hI hn, hd]
 
-/-- the in-memory iterator over `findAt` is the iterator over `firstMatch` -/
+/-- the in-memory iterator over `findAt` is the iterator over `firstMatch`
+(no buffer is involved: the statement does not mention the capacity) -/
 theorem iter_findAt (P : List (List α)) (sk : StartKind) (hsk : supportsAnch sk false)
-    (hne : ∀ p ∈ P, p ≠ []) (data : List α) (sched : List Nat) (hs : ∀ x ∈ sched, 1 ≤ x)
-    (spare : Option Nat) :
+    (hne : ∀ p ∈ P, p ≠ []) (data : List α) :
     iterSpec (findAt (ideal .std P sk false) none (whole data)) 0 data.length =
       iterSpecAux (firstMatch (ideal .std P sk false) (.at []) data) (data.length + 2 - 0) 0 none :=
   iter_congr (fun r hr => findAt_eq_firstMatch P sk hsk hne data r hr)
-    (hyp_ideal P sk hsk hne data sched hs spare).FOK _ 0 none (Nat.zero_le _)
+    (hyp_ideal P sk hsk hne data [] (fun _ h => nomatch h) none 8 (64 * 1024)
+      (hcap_default _ none)).FOK _ 0 none (Nat.zero_le _)
 
 theorem findIter_eq (P : List (List α)) (sk : StartKind) (hsk : supportsAnch sk false)
     (data : List α) :
